@@ -257,6 +257,15 @@ Theorem C01_no_panic_flag_subs : forall c0 toks,
 Proof. exact do_parse_total_fs. Qed.
 Print Assumptions C01_no_panic_flag_subs.
 
+(** every row [Modelled l] of the panic-site table ([C01_sites_match]: the sites of the Rust source today) is dead
+    for the class too -- in particular the two sites of the resume logic, parser.rs `self.cur_idx.get() - flag_subcmd_at`
+    (243) and `debug_assert_eq!(short_arg.advance_by(skip), Ok(()))` (920), which [C01_sites_dead] excludes only for
+    definitions without short flag-subcommands *)
+Theorem C01_sites_dead_flag_subs : forall c0 toks, flag_sub_class c0 = true -> valid c0 = true ->
+  forall n, In n modelled_sites -> do_parse c0 toks <> OPanicked n.
+Proof. exact sites_dead_fs. Qed.
+Print Assumptions C01_sites_dead_flag_subs.
+
 (** the class is an extension of [plain] (on valid definitions) *)
 Theorem C01_plain_in_flag_sub_class : forall c0, plain c0 = true -> valid c0 = true -> flag_sub_class c0 = true.
 Proof. exact plain_in_class. Qed.
